@@ -14,7 +14,7 @@ AccOK(c) == c = Clear \/ (0 <= c /\ c <= LMm1)
 BI(x) == [s |-> x.s, d |-> x.d]          \* a logged BigInt
 
 JudgeMove(e, j, tag) ==                   \* lt / t3 : (position, accumulator) after T ticks
-  IF ~(AccOK(e.c) /\ DomainOK(e.r, e.a, j, BI(e.T))) THEN "skip"
+  IF ~(AccOK(e.c) /\ (IF tag = "t3" THEN DomainOK32(e.r, e.a, j, BI(e.T)) ELSE DomainOK(e.r, e.a, j, BI(e.T)))) THEN "skip"
   ELSE LET pa == PosAccAtL(e.r, e.a, j, e.c, BI(e.T)) IN
        IF ~e.isint THEN tag \o ".not_integer"
        ELSE IF BI(e.pos) # pa.q THEN tag \o ".position"
@@ -22,7 +22,7 @@ JudgeMove(e, j, tag) ==                   \* lt / t3 : (position, accumulator) a
        ELSE "ok"
 
 JudgeRate(e) ==
-  IF ~DomainOK(e.r, e.a, e.j, BI(e.T)) THEN "skip"
+  IF ~DomainOK32(e.r, e.a, e.j, BI(e.T)) THEN "skip"
   ELSE IF ~e.isint THEN "rate.not_integer"
   ELSE IF BI(e.val) # RateAtL(e.r, e.a, e.j, BI(e.T)) THEN "rate.end_of_move" ELSE "ok"
 
